@@ -150,6 +150,13 @@ func (self *Interpreter) forStatement(node ast.AnalyzedForStatement) *value.Inte
 		return i
 	}
 
+	// Lists are iterated over a snapshot (like on the VM): elements which are added while looping are not visited.
+	if list, isList := (*iterVal).(value.ValueList); isList {
+		snapshot := make([]*value.Value, len(*list.Values))
+		copy(snapshot, *list.Values)
+		iterVal = value.NewValueList(snapshot)
+	}
+
 	iterator := (*iterVal).IntoIter()
 
 	// add a new scope for the loop
